@@ -295,6 +295,11 @@ def units(tier):
         us.append({"name": "falsy exceptions beh=%d cleanup=%d who=%s" % (beh, cleanup, who), "fn": scn, "budget_s": 240,
                    "params": {"beh": beh, "cleanup": cleanup, "who": who, "falsy": True, "T": 1, "J": 1}})
     if not quick:
+        extra = [u for u in us if any(k in u["params"] for k in ("precancel", "caller_shield", "falsy"))]
+        for u in extra:
+            us.append({"name": u["name"] + " eager", "fn": scn, "params": dict(u["params"], eager=True), "budget_s": 600})
+            if "precancel" not in u["params"]:
+                us.append({"name": u["name"] + " T=2 J=2", "fn": scn, "params": dict(u["params"], T=2, J=2), "budget_s": 900})
         for beh in (0, 1, 2, 3, 4):
             for cleanup in (0, 1, 2):
                 for who in ("caller", "group"):
